@@ -1025,3 +1025,277 @@ example :
     (evalShapeOld [[]] [[3, 1]] 2 false = none ∧ docShape [[]] [[3, 1]] 2 = some [3, 1, 2]) ∧
     (evalShapeOld [[3]] [[], [3]] 3 true = none ∧ docShape [[3]] [[], [3]] 3 = some [3, 3]) := by
   decide
+
+/-! ## round 4: `rotation_matrix_from_to` with all its branches, Euler factorisation, helix -/
+
+/-- `v / ‖v‖` as coded (`V2.normalize`, `V3.normalize`: used by every constructor, by
+`rotation_matrix_from_to`, `perpendicular_vector`, `surface_normal`) has unit length, for any
+function `sqrt` that is a square root at the squared norm in question and any non-zero `v`. -/
+theorem C19.normalize_unit {K : Type} [Field K] (sqrt : K → K) :
+    (∀ v : V2 K, v.normSq ≠ 0 → sqrt v.normSq * sqrt v.normSq = v.normSq →
+      (V2.normalize sqrt v).normSq = 1) ∧
+    (∀ v : V3 K, v.normSq ≠ 0 → sqrt v.normSq * sqrt v.normSq = v.normSq →
+      (V3.normalize sqrt v).normSq = 1) := by
+  constructor
+  · intro v h0 hs
+    have hr : sqrt v.normSq ≠ 0 := by intro h; rw [h] at hs; exact h0 (by simpa using hs.symm)
+    have e : (V2.normalize sqrt v).normSq
+        = (1 / sqrt v.normSq) * (1 / sqrt v.normSq) * v.normSq := by
+      simp only [V2.normalize, V2.normSq, V2.dot, V2.smul]; ring
+    rw [e]; nth_rewrite 3 [← hs]; field_simp
+  · intro v h0 hs
+    have hr : sqrt v.normSq ≠ 0 := by intro h; rw [h] at hs; exact h0 (by simpa using hs.symm)
+    have e : (V3.normalize sqrt v).normSq
+        = (1 / sqrt v.normSq) * (1 / sqrt v.normSq) * v.normSq := by
+      simp only [V3.normalize, V3.normSq, V3.dot, V3.smul]; ring
+    rw [e]; nth_rewrite 3 [← hs]; field_simp
+
+example : (V3.normalize (fun _ => (7 : ℚ)) ⟨2, 3, 6⟩).normSq = 1 :=
+  (C19.normalize_unit (fun _ => (7 : ℚ))).2 ⟨2, 3, 6⟩ (by norm_num [V3.normSq, V3.dot])
+    (by norm_num [V3.normSq, V3.dot])
+
+/-- `rotation_matrix_from_to(u, v)` in 2-d is a rotation taking `u` to `v` for ALL unit vectors
+`u, v` — including the two special branches of the code: `v = u` gives the identity and
+`v = -u` the rotation by `π` (`-1`). -/
+theorem C19.from_to_maps_2d {K : Type} [CommRing K] (u v : V2 K)
+    (hu : u.normSq = 1) (hv : v.normSq = 1) :
+    (rotFromTo2 u v).mulVec u = v ∧ IsRot2 (rotFromTo2 u v) ∧
+    rotFromTo2 u u = M2.one ∧ rotFromTo2 u (V2.neg u) = ⟨-1, 0, 0, -1⟩ := by
+  obtain ⟨a, b⟩ := u
+  obtain ⟨x, y⟩ := v
+  simp only [V2.normSq, V2.dot] at hu hv
+  refine ⟨?_, ⟨?_, ?_⟩, ?_, ?_⟩
+  · ext <;> simp only [rotFromTo2, perp2, V2.dot, M2.mulVec] <;> grind
+  · ext <;> simp only [rotFromTo2, perp2, V2.dot, M2.transpose, M2.mul, M2.one] <;> grind
+  · simp only [rotFromTo2, perp2, V2.dot, M2.det]; grind
+  · ext <;> simp only [rotFromTo2, perp2, V2.dot, M2.one] <;> grind
+  · ext <;> simp only [rotFromTo2, perp2, V2.dot, V2.neg] <;> grind
+
+example : (rotFromTo2 (⟨3 / 5, 4 / 5⟩ : V2 ℚ) ⟨-5 / 13, 12 / 13⟩).mulVec ⟨3 / 5, 4 / 5⟩
+    = ⟨-5 / 13, 12 / 13⟩ :=
+  (C19.from_to_maps_2d _ _ (by norm_num [V2.normSq, V2.dot]) (by norm_num [V2.normSq, V2.dot])).1
+
+/-- The collinear branch of `rotation_matrix_from_to` in 3-d.  `perpendicular_vector(u)`
+(before normalisation) is non-zero and orthogonal to `u` for every `u ≠ 0`; and for a unit
+vector `u` and ANY unit `n ⟂ u`, `axis_rotation_matrix(n, 0)` is the identity and
+`axis_rotation_matrix(n, π)` (exact `cos π = -1`, `sin π = 0`) takes `u` to `-u`. -/
+theorem C19.from_to_collinear {K : Type} [Field K] [LinearOrder K] [IsStrictOrderedRing K]
+    (u n : V3 K) :
+    (u.normSq ≠ 0 → (perp3 u).normSq ≠ 0 ∧ V3.dot (perp3 u) u = 0) ∧
+    axisRot n 1 0 = M3.one ∧
+    (n.normSq = 1 → V3.dot n u = 0 → (axisRot n (-1) 0).mulVec u = V3.neg u) := by
+  obtain ⟨a, b, c⟩ := u
+  obtain ⟨x, y, z⟩ := n
+  refine ⟨?_, ?_, ?_⟩
+  · intro h0
+    simp only [perp3]
+    split_ifs with h
+    · simp only [V3.normSq, V3.dot] at *
+      obtain ⟨ha, hb⟩ := h
+      subst ha hb
+      constructor <;> norm_num
+    · simp only [V3.normSq, V3.dot] at *
+      constructor
+      · intro h2
+        have h3 : b * b + a * a = 0 := by linear_combination h2
+        have hb : b = 0 := by nlinarith [mul_self_nonneg a, mul_self_nonneg b]
+        have ha : a = 0 := by nlinarith [mul_self_nonneg a, mul_self_nonneg b]
+        exact h ⟨ha, hb⟩
+      · ring
+  · ext <;> simp only [axisRot, M3.one] <;> ring
+  · intro hn hd
+    simp only [V3.normSq, V3.dot] at hn hd
+    ext <;> simp only [axisRot, M3.mulVec, V3.neg] <;> grind
+
+example : (axisRot (⟨3 / 5, -4 / 5, 0⟩ : V3 ℚ) (-1) 0).mulVec ⟨4 / 13, 3 / 13, 12 / 13⟩
+    = V3.neg ⟨4 / 13, 3 / 13, 12 / 13⟩ :=
+  (C19.from_to_collinear (⟨4 / 13, 3 / 13, 12 / 13⟩ : V3 ℚ) ⟨3 / 5, -4 / 5, 0⟩).2.2
+    (by norm_num [V3.normSq, V3.dot]) (by norm_num [V3.dot])
+
+/-- `rotation_matrix_from_to(u0, v0)` in 3-d AS CODED (zero test, normalisation, collinear
+branch with `perpendicular_vector`, generic Rodrigues branch) returns a rotation (orthonormal,
+determinant one) for ALL inputs on which it does not raise — also for nearly collinear and
+nearly opposite vectors, and for the code's inexact `(cos π, sin π)` (only `c² + s² = 1` is
+used).  CONDITIONAL on the leaf hypotheses that `sqrt` is a square root at the three squared
+norms that are normalised. -/
+theorem C19.from_to_code_rotation {K : Type} [Field K] [LinearOrder K] [IsStrictOrderedRing K]
+    (sqrt : K → K) (tol2 cpi spi : K) (u0 v0 : V3 K) (R : M3 K)
+    (htol : 0 < tol2) (hpi : cpi * cpi + spi * spi = 1)
+    (hsu : sqrt u0.normSq * sqrt u0.normSq = u0.normSq)
+    (hsv : sqrt v0.normSq * sqrt v0.normSq = v0.normSq)
+    (hsp : sqrt (perp3 (V3.normalize sqrt u0)).normSq * sqrt (perp3 (V3.normalize sqrt u0)).normSq
+      = (perp3 (V3.normalize sqrt u0)).normSq)
+    (h : rotFromToCode3 sqrt tol2 cpi spi u0 v0 = some R) : IsRot3 R := by
+  unfold rotFromToCode3 at h
+  split_ifs at h with h1
+  push Not at h1
+  have hu0 : u0.normSq ≠ 0 := ne_of_gt (lt_of_lt_of_le htol h1.1)
+  have hv0 : v0.normSq ≠ 0 := ne_of_gt (lt_of_lt_of_le htol h1.2)
+  have hu := (C19.normalize_unit sqrt).2 u0 hu0 hsu
+  have hv := (C19.normalize_unit sqrt).2 v0 hv0 hsv
+  have hp := (C19.from_to_collinear (V3.normalize sqrt u0) u0).1 (by rw [hu]; exact one_ne_zero)
+  have hn := (C19.normalize_unit sqrt).2 _ hp.1 hsp
+  dsimp only at h
+  split_ifs at h with h2 h3
+  · simp only [Option.some.injEq] at h
+    rw [← h]
+    exact C19.rot_orthonormal_axis _ 1 0 (by ring) hn
+  · simp only [Option.some.injEq] at h
+    rw [← h]
+    exact C19.rot_orthonormal_axis _ cpi spi hpi hn
+  · simp only [Option.some.injEq] at h
+    rw [← h]
+    refine (C19.from_to_maps _ _ hu hv ?_).2
+    intro hc
+    apply h2
+    generalize V3.normalize sqrt u0 = u at *
+    generalize V3.normalize sqrt v0 = v at *
+    obtain ⟨a, b, c⟩ := u
+    obtain ⟨x, y, z⟩ := v
+    simp only [V3.normSq, V3.dot, V3.cross] at *
+    have lag : (b * z - c * y) * (b * z - c * y) + (c * x - a * z) * (c * x - a * z)
+        + (a * y - b * x) * (a * y - b * x) = 0 := by
+      have e : a * x + b * y + c * z = -1 := by linear_combination hc
+      linear_combination (x * x + y * y + z * z) * hu + hv + (1 - (a * x + b * y + c * z)) * e
+    rw [lag]; exact htol
+
+/-- non-trivial instance (opposite branch): `u0 = (0,0,2)`, `v0 = (0,0,-3)`; the result is the
+rotation by `π` about `perpendicular_vector(u) = (1,0,0)`. -/
+example : rotFromToCode3 (fun s : ℚ => if s = 4 then 2 else if s = 9 then 3 else 1)
+    (1 / 10 ^ 20) (-1) 0 ⟨0, 0, 2⟩ ⟨0, 0, -3⟩ = some ⟨1, 0, 0, 0, -1, 0, 0, 0, -1⟩ := by
+  simp [rotFromToCode3, V3.normalize, V3.normSq, V3.dot, V3.smul, V3.cross, perp3, axisRot]
+  norm_num
+
+/-- `rotation_matrix_from_to(u0, v0)` in 3-d as coded takes the normalised `u0` to the
+normalised `v0`: in the generic branch always, and in the collinear branch when the vectors
+are exactly collinear (`u × v = 0`: same or opposite direction) and `(cos π, sin π) = (-1, 0)`
+exactly.  (For float `sin π = 1.2e-16` and for nearly collinear vectors inside the `1e-10`
+band the result is still a rotation — `C19.from_to_code_rotation` — but misses `v` by that
+much.) -/
+theorem C19.from_to_code_maps {K : Type} [Field K] [LinearOrder K] [IsStrictOrderedRing K]
+    (sqrt : K → K) (tol2 : K) (u0 v0 : V3 K) (R : M3 K)
+    (htol : 0 < tol2)
+    (hsu : sqrt u0.normSq * sqrt u0.normSq = u0.normSq)
+    (hsv : sqrt v0.normSq * sqrt v0.normSq = v0.normSq)
+    (hsp : sqrt (perp3 (V3.normalize sqrt u0)).normSq * sqrt (perp3 (V3.normalize sqrt u0)).normSq
+      = (perp3 (V3.normalize sqrt u0)).normSq)
+    (hbr : tol2 ≤ (V3.cross (V3.normalize sqrt u0) (V3.normalize sqrt v0)).normSq ∨
+      V3.cross (V3.normalize sqrt u0) (V3.normalize sqrt v0) = V3.zero)
+    (h : rotFromToCode3 sqrt tol2 (-1) 0 u0 v0 = some R) :
+    R.mulVec (V3.normalize sqrt u0) = V3.normalize sqrt v0 := by
+  unfold rotFromToCode3 at h
+  split_ifs at h with h1
+  push Not at h1
+  have hu0 : u0.normSq ≠ 0 := ne_of_gt (lt_of_lt_of_le htol h1.1)
+  have hv0 : v0.normSq ≠ 0 := ne_of_gt (lt_of_lt_of_le htol h1.2)
+  have hu := (C19.normalize_unit sqrt).2 u0 hu0 hsu
+  have hv := (C19.normalize_unit sqrt).2 v0 hv0 hsv
+  have hp := (C19.from_to_collinear (V3.normalize sqrt u0) u0).1 (by rw [hu]; exact one_ne_zero)
+  have hn := (C19.normalize_unit sqrt).2 _ hp.1 hsp
+  dsimp only at h
+  split_ifs at h with h2 h3
+  all_goals simp only [Option.some.injEq] at h
+  all_goals rw [← h]
+  · -- same direction
+    rcases hbr with hbr | hbr
+    · exact absurd h2 (not_lt.mpr hbr)
+    rw [(C19.from_to_collinear (V3.normalize sqrt u0) _).2.1]
+    generalize V3.normalize sqrt u0 = u at *
+    generalize V3.normalize sqrt v0 = v at *
+    obtain ⟨a, b, c⟩ := u
+    obtain ⟨x, y, z⟩ := v
+    simp only [V3.normSq, V3.dot, V3.cross, V3.zero, V3.mk.injEq] at hu hv hbr h3
+    obtain ⟨e1, e2, e3⟩ := hbr
+    have vx : x = (a * x + b * y + c * z) * a := by linear_combination (-x) * hu - b * e3 + c * e2
+    have vy : y = (a * x + b * y + c * z) * b := by linear_combination (-y) * hu + a * e3 - c * e1
+    have vz : z = (a * x + b * y + c * z) * c := by linear_combination (-z) * hu - a * e2 + b * e1
+    have cc : (a * x + b * y + c * z) * (a * x + b * y + c * z) = 1 := by
+      linear_combination hv + (-(x)) * vx + (-(y)) * vy + (-(z)) * vz
+    have c1 : a * x + b * y + c * z = 1 := by
+      have h0 : (a * x + b * y + c * z - 1) * (a * x + b * y + c * z + 1) = 0 := by
+        linear_combination cc
+      rcases mul_eq_zero.mp h0 with h | h
+      · linarith
+      · exfalso; linarith
+    rw [c1] at vx vy vz
+    simp only [M3.one, M3.mulVec, V3.mk.injEq]
+    refine ⟨?_, ?_, ?_⟩ <;> linarith
+  · -- opposite direction
+    rcases hbr with hbr | hbr
+    · exact absurd h2 (not_lt.mpr hbr)
+    have hd : V3.dot (V3.normalize sqrt (perp3 (V3.normalize sqrt u0))) (V3.normalize sqrt u0) = 0 := by
+      have := hp.2
+      generalize perp3 (V3.normalize sqrt u0) = w at this ⊢
+      generalize V3.normalize sqrt u0 = u at this ⊢
+      simp only [V3.normalize, V3.dot, V3.smul] at this ⊢
+      linear_combination (1 / sqrt w.normSq) * this
+    rw [(C19.from_to_collinear (V3.normalize sqrt u0) _).2.2 hn hd]
+    generalize V3.normalize sqrt u0 = u at *
+    generalize V3.normalize sqrt v0 = v at *
+    obtain ⟨a, b, c⟩ := u
+    obtain ⟨x, y, z⟩ := v
+    simp only [V3.normSq, V3.dot, V3.cross, V3.zero, V3.mk.injEq] at hu hv hbr h3
+    obtain ⟨e1, e2, e3⟩ := hbr
+    have vx : x = (a * x + b * y + c * z) * a := by linear_combination (-x) * hu - b * e3 + c * e2
+    have vy : y = (a * x + b * y + c * z) * b := by linear_combination (-y) * hu + a * e3 - c * e1
+    have vz : z = (a * x + b * y + c * z) * c := by linear_combination (-z) * hu - a * e2 + b * e1
+    have cc : (a * x + b * y + c * z) * (a * x + b * y + c * z) = 1 := by
+      linear_combination hv + (-(x)) * vx + (-(y)) * vy + (-(z)) * vz
+    have c1 : a * x + b * y + c * z = -1 := by
+      have h0 : (a * x + b * y + c * z - 1) * (a * x + b * y + c * z + 1) = 0 := by
+        linear_combination cc
+      rcases mul_eq_zero.mp h0 with h | h
+      · exfalso; apply h3; linarith
+      · linarith
+    rw [c1] at vx vy vz
+    simp only [V3.neg, V3.mk.injEq]
+    refine ⟨?_, ?_, ?_⟩ <;> linarith
+  · -- generic branch
+    refine (C19.from_to_maps _ _ hu hv ?_).1
+    intro hc
+    apply h2
+    generalize V3.normalize sqrt u0 = u at *
+    generalize V3.normalize sqrt v0 = v at *
+    obtain ⟨a, b, c⟩ := u
+    obtain ⟨x, y, z⟩ := v
+    simp only [V3.normSq, V3.dot, V3.cross] at *
+    have lag : (b * z - c * y) * (b * z - c * y) + (c * x - a * z) * (c * x - a * z)
+        + (a * y - b * x) * (a * y - b * x) = 0 := by
+      have e : a * x + b * y + c * z = -1 := by linear_combination hc
+      linear_combination (x * x + y * y + z * z) * hu + hv + (1 - (a * x + b * y + c * z)) * e
+    rw [lag]; exact htol
+
+/-- `euler_matrix(phi, theta, psi)` as coded (9 explicit entries) is the ZXZ product the
+documentation promises: `Rz(phi) · Rx(theta) · Rz(psi)`; hence rotating by Euler angles
+composes as documented (first about z by psi, then about x by theta, then about z by phi). -/
+theorem C19.euler_zxz_factorisation {K : Type} [CommRing K] (cph sph cth sth cps sps : K) :
+    euler3 cph sph cth sth cps sps
+      = ((⟨cph, -sph, 0, sph, cph, 0, 0, 0, 1⟩ : M3 K).mul ⟨1, 0, 0, 0, cth, -sth, 0, sth, cth⟩).mul
+          ⟨cps, -sps, 0, sps, cps, 0, 0, 0, 1⟩ := by
+  ext <;> simp only [euler3, M3.mul] <;> ring
+
+example : euler3 (3 / 5 : ℚ) (4 / 5) (5 / 13) (12 / 13) (8 / 17) (15 / 17)
+    = ((⟨3 / 5, -(4 / 5), 0, 4 / 5, 3 / 5, 0, 0, 0, 1⟩ : M3 ℚ).mul
+        ⟨1, 0, 0, 0, 5 / 13, -(12 / 13), 0, 12 / 13, 5 / 13⟩).mul
+        ⟨8 / 17, -(15 / 17), 0, 15 / 17, 8 / 17, 0, 0, 0, 1⟩ :=
+  C19.euler_zxz_factorisation _ _ _ _ _ _
+
+/-- Helical `ConeBeamGeometry`: one more full turn (`turns + 1`, i.e. `angle + 2π`: same
+rotation matrix, and shift functions with period `2π` give the same shifts) moves the source
+position, the detector reference point and every detector point by exactly `pitch · axis`,
+and leaves `det_to_src` unchanged — for all axes, radii, offsets, shifts and detector types. -/
+theorem C19.helical_pitch_period {K : Type} [CommRing K] (g : Cone K) (R : M3 K) (turns : K)
+    (ssh dsh : V3 K) (p : P2 K) :
+    g.srcPos R (turns + 1) ssh = V3.add (g.srcPos R turns ssh) (V3.smul g.pitch g.axis) ∧
+    g.refpoint R (turns + 1) dsh = V3.add (g.refpoint R turns dsh) (V3.smul g.pitch g.axis) ∧
+    g.detPoint R (turns + 1) dsh p = V3.add (g.detPoint R turns dsh p) (V3.smul g.pitch g.axis) ∧
+    g.detToSrc R (turns + 1) ssh dsh p = g.detToSrc R turns ssh dsh p := by
+  refine ⟨?_, ?_, ?_, ?_⟩ <;>
+    ext <;> simp only [Cone.srcPos, Cone.refpoint, Cone.detPoint, Cone.detToSrc, V3.add, V3.sub,
+      V3.smul, V3.neg, V3.cross, M3.mulVec] <;> ring
+
+example : ∃ g : Cone ℚ, g.pitch = 3 ∧
+    g.srcPos (axisRot g.axis (3 / 5) (4 / 5)) (1 / 4 + 1) ⟨1, 2, 3⟩
+      = V3.add (g.srcPos (axisRot g.axis (3 / 5) (4 / 5)) (1 / 4) ⟨1, 2, 3⟩) (V3.smul 3 g.axis) :=
+  ⟨⟨⟨2 / 7, 3 / 7, 6 / 7⟩, ⟨3 / 7, -6 / 7, 2 / 7⟩, ⟨1, 2, 3⟩, 5, 4, 3, 1 / 2, 1, .flat ⟨1, 0, 0⟩ ⟨0, 1, 0⟩⟩,
+    rfl, (C19.helical_pitch_period _ _ _ _ ⟨0, 0, 0⟩ ⟨0, 0, 1, 0, 1, 0⟩).1⟩
